@@ -361,6 +361,18 @@ def subtype_shape(fr, r):
         walk(t)
         return found[0]
     feats = []
+
+    def argkind(a):
+        if kind(a) != "w":
+            return "bare"
+        return "star" if a.bound is None else ("out" if a.is_covariant() else "in" if a.is_contravariant() else "inv")
+    if same and via == "related":
+        # which positions were changed, and how (query argument -> returned argument)
+        moves = sorted({"%s-to-%s" % (argkind(a), argkind(b)) for a, b in zip(e.type_args, r.type_args)
+                        if not (a == b)})
+        ps0 = list(e.t_constructor.type_parameters)
+        if not any(p.bound is not None and any(p.bound == q for q in ps0) for p in ps0):
+            return "%s/related/samecon/%s" % ("sub" if fr["get_subtypes"] else "super", "+".join(moves) or "none")
     if kind(e) == "p":
         ps = list(e.t_constructor.type_parameters)
         if any(p.bound is not None and any(p.bound == q for q in ps) for p in ps):
